@@ -145,6 +145,8 @@ func ClassifyReason(r error) (J, bool) {
 		return J{"c": "no-such-key"}, true
 	case "vals.cannotConcat", "vals.cannotIterate", "vals.cannotIterateKeysOf", "vals.cannotParseAs":
 		return J{"c": "type"}, true
+	case "vars.elemErr":
+		return J{"c": "type"}, true
 	case "eval.noSuchVariableError":
 		return J{"c": "no-such-variable"}, true
 	}
